@@ -84,6 +84,8 @@ class Engine(EngineBase):
                 continue
             if all(not same(sp, s) for s in sps):
                 sps.append(sp)
+        if rng.random() < 0.12 and not schema_focus:
+            sps.append({})  # the empty state point is a valid state point (and makes the key sets heterogeneous)
         jobs = []
         for i, sp in enumerate(sps):
             files = {}
@@ -179,7 +181,7 @@ def path_callable(kind, jobs_order):
     if kind == "const":
         return lambda job: "same"
     if kind == "first_key":
-        return lambda job: "k_" + str(sorted(job.sp().items())[0][1])
+        return lambda job: "k_" + str((sorted(job.sp().items()) or [("", "empty")])[0][1])
     first = jobs_order[0] if jobs_order else None
     if kind == "leafnode":
         # the first job is a leaf 'p', every other job lives below it
